@@ -8,15 +8,16 @@ ASSUME = [
     "serialize_root (XML text generation) replaced by an arbitrary byte string of symbolic length 1..4096: XML well-formedness, namespaces and the offsets published INSIDE the XML are outside this check",
     "writer pre-state: ANY abstract INV-writer state with cursor >= 48 (E57Writer::new has written the placeholder header), i.e. any earlier sections, any residue modulo 1020",
     "the independent decoder is a set of SPEC predicates (header layout, SPEC-page addressing, section header layout) written from the format rules, not derived from the crate's reader",
-    "compressed-vector section/packet layout is decided under C01/C03 obligations (packet level) and O02.4 (header serialisers, Kani, all field values)",
+    "compressed-vector sections: an independent decoder walks the section produced by PointCloudWriter (header: id, length, data offset = physical address of the first packet outside checksum bytes, index offset; "
+    "packets: type, length multiple of 4, stream count, stream sizes fit, zero padding, packets fill the section exactly) for concrete prototype shapes and symbolic values, from any 4-aligned writer state",
     "page layer represented by its contracts (C11 decides them on the real PagedWriter MIR)",
 ]
 
 
 def run(ctx):
-    from mirsym import spec_blob, spec_e57
+    from mirsym import spec_blob, spec_e57, spec_pcw
     tier = ctx["tier"]
-    scen = spec_e57.scenarios(tier) + spec_e57.ordering_scenarios(tier)[:1] + spec_blob.scenarios(tier)[:1]
+    scen = spec_e57.scenarios(tier) + spec_e57.ordering_scenarios(tier)[:1] + spec_blob.scenarios(tier)[:1] + spec_pcw.scenarios(tier)
     obls, samples = mlane.run_scenarios("C02", "O02", scen, ctx, "any INV writer state (<= 8 pages + 6 new), XML <= 4096 B, blob <= 5000 B")
     obls += kp.run_k("C02", "c02", kp.F_HDR, kp.hdr_write_specs(tier), ctx)
     return dict(obligations=obls, functions=FUNCTIONS, assumptions=ASSUME, samples=samples,
